@@ -1,7 +1,186 @@
-"""C19 — Master scheduling: requests first and in order, polls on period, one at a time."""
+"""C19 — Master scheduling: requests first and in order, polls on period, one at a time.
+
+Generator, trace parser and timeline are shared with C17 (tools/props/c17.py); this module adds
+the scripts' `sched` flavour (1..4 associations, polls with arbitrary periods, user requests at
+arbitrary virtual times, prompt / late / missing responses, keep-alive, enable/disable) and the
+direct oracle of C19."""
 from propcheck import *
 import c17
 from c17 import *
+
+MAX_POLLS_PER_MS = 64      # polls of the master task within one virtual millisecond (busy-loop bound)
+
+
+def class_mask(req):
+    """class mask of a READ request fragment (bit0 = class 1, bit1 = class 2, bit2 = class 3, bit3 = class 0)"""
+    m, b = 0, req[2:]
+    while len(b) >= 3 and b[0] == 0x3C and b[2] == 0x06:
+        m |= {2: 1, 3: 2, 4: 4, 1: 8}.get(b[1], 0)
+        b = b[3:]
+    return m
+
+
+def c19_oracle(case, impl):
+    fails = machinery_failures(impl)
+    for l in impl:
+        if l.startswith("wakes ") and int(l.split()[1]) > MAX_POLLS_PER_MS:
+            fails.append(("no-busy-loop", "the master task was polled %s times within one virtual millisecond" % l.split()[1]))
+    if not any(l.startswith("conn") for l in impl):
+        return fails
+    tl = Timeline(case, impl)
+    n = tl.n
+
+    def bad(clause, text, e):
+        fails.append((clause, "%s [%s]" % (text, e.line if e is not None else "-")))
+
+    # ---- ground truth from the script ------------------------------------------------------------
+    res_of = {int(e.f[2]): e for e in tl.res}
+    submitted = []                    # accepted user requests: [a, token, kind, t_sub]
+    for t, o in tl.ops:
+        if o[0] == "user":
+            a, tok, kind = int(o[1]), int(o[2]), o[3]
+            r = res_of.get(tok)
+            if r is not None and r.t == t and r.f[3] == "err" and r.f[4] in ("too-many-requests", "no-connection"):
+                continue              # refused at once, never queued
+            submitted.append([a, tok, USER_KIND_OF[kind], t])
+    polls = {}                        # (a, mask) -> dict(period, last (completion or creation), demands)
+    npolls = [0] * n
+    demands = []                      # (t, a, index)
+    for t, o in tl.ops:
+        if o[0] == "add_poll":
+            a = int(o[1])
+            polls[(a, int(o[3]) & 15)] = {"period": int(o[2]), "last": t, "idx": npolls[a], "clean": True}
+            npolls[a] += 1
+        if o[0] == "demand":
+            demands.append((t, int(o[1]), int(o[2])))
+
+    # ---- replay of the notifications ----------------------------------------------------------------
+    pending = [[] for _ in range(n)]      # queued user requests per association, oldest first
+    nsub = 0
+    ring = list(range(n))
+    open_task = None                      # (a, type, t) of the application task in progress
+    link_until = None                     # a link status task occupies the channel until then
+    last_rx = [0] * n                     # last link activity per association (registration at 0)
+    connected = False
+    open_poll = {}                        # a -> (a, mask) of the poll in progress
+
+    def enqueue_until(t, strict):
+        nonlocal nsub
+        while nsub < len(submitted) and (submitted[nsub][3] < t or (not strict and submitted[nsub][3] == t)):
+            a, tok, kind, ts = submitted[nsub]
+            pending[a].append((tok, kind, ts))
+            nsub += 1
+
+    def drop_answered(t):
+        # requests answered without ever starting (start refused, or flushed when the session closed)
+        for a in range(n):
+            pending[a][:] = [p for p in pending[a] if not (p[0] in res_of and res_of[p[0]].t <= t and not p[0] in started)]
+
+    started = set()
+    for pos, e in enumerate(tl.stream0):
+        if e.kind == "conn":
+            connected = True
+            continue
+        if e.kind == "closed":
+            connected = False
+            open_task = None; link_until = None; open_poll.clear()
+            for p in polls.values(): p["clean"] = False
+            continue
+        if e.kind == "rx":
+            f = tl.rx.get(id(e))
+            src = int(e.f[2])
+            if link_until is not None and e.t < link_until[0]:
+                link_until = (e.t, link_until[1])      # a fragment ends the wait for LINK_STATUS
+            if f is not None and tl.known(src):
+                last_rx[src - 1024] = e.t
+            continue
+        is_start = e.kind == "txlink" or (e.kind == "info" and e.f[3] == "start")
+        if is_start:
+            a = int(e.f[2])
+            kind = "link" if e.kind == "txlink" else e.f[4]
+            enqueue_until(e.t, strict=False)
+            drop_answered(e.t)
+            # ---- at most one request outstanding
+            if open_task is not None:
+                bad("one-outstanding", "%s of association %d started while %s of association %d (started at %d) was outstanding"
+                    % (kind, a, open_task[1], open_task[0], open_task[2]), e)
+            if link_until is not None and e.t < link_until[0]:
+                bad("one-outstanding", "%s of association %d started at %d while the link status request of association %d was outstanding until %d"
+                    % (kind, a, e.t, link_until[1], link_until[0]), e)
+            # ---- is it a user request?
+            head = pending[a][0] if pending[a] else None
+            user = head is not None and head[1] == kind
+            older = [b for b in ring if pending[b] and pending[b][0][2] < e.t]
+            if user:
+                started.add(head[0])
+                # ---- associations take turns: the ring decides among those that were waiting
+                if a in older and older[0] != a:
+                    bad("round-robin", "user request of association %d served while association %d, ahead in the ring, was waiting since %d"
+                        % (a, older[0], pending[older[0]][0][2]), e)
+                # ---- FIFO within the association is the matching against the head; a request that
+                # overtakes shows up as a kind mismatch or as a never-matched head below
+                pending[a].pop(0)
+            else:
+                if older:
+                    b = older[0]
+                    bad("user-before-polls", "%s of association %d started although user request %d of association %d was waiting since %d"
+                        % (kind, a, pending[b][0][0], b, pending[b][0][2]), e)
+                if kind == "link":
+                    c = tl.assocs[a]
+                    if c.ka == 0:
+                        bad("keepalive", "link status request to association %d although no keep-alive is configured" % a, e)
+                    elif e.t < last_rx[a] + c.ka:
+                        bad("keepalive", "keep-alive to association %d at %d, only %d ms after its last activity at %d (timeout %d)"
+                            % (a, e.t, e.t - last_rx[a], last_rx[a], c.ka), e)
+                if kind == "poll":
+                    req = [b for b in tl.tx_at(e.t) if len(b) >= 2 and b[1] == 1 and (b[0] & 15) == int(e.f[6])]
+                    key = (a, class_mask(req[0])) if req else None
+                    p = polls.get(key)
+                    if p is not None:
+                        open_poll[a] = key
+                        due = p["last"] + p["period"]
+                        dem = [t for t, da, di in demands if da == a and di == p["idx"] and p["last"] <= t <= e.t]
+                        if e.t < due and not dem:
+                            bad("poll-cadence", "poll %d of association %d started at %d, %d ms after its previous completion at %d (period %d)"
+                                % (p["idx"], a, e.t, e.t - p["last"], p["last"], p["period"]), e)
+                        # ---- not starved: nothing else ran since its completion -> it starts when due
+                        if p["clean"] and not tl.silent_tsync and p.get("quiet_since") == p["last"]:
+                            want = max(p["last"], min([due] + dem))
+                            if e.t > want and e.t > p["last"]:
+                                bad("poll-not-starved", "poll %d of association %d due at %d started only at %d although the channel was idle"
+                                    % (p["idx"], a, want, e.t), e)
+            # the ring: the served association moves to the back
+            ring.remove(a); ring.append(a)
+            for p in polls.values():
+                p["quiet_since"] = None
+            if kind == "link":
+                link_until = (e.t + tl.assocs[a].rto, a)
+            else:
+                open_task = (a, kind, e.t)
+                link_until = None
+            continue
+        if e.kind == "info" and e.f[3] in ("ok", "fail"):
+            a, kind = int(e.f[2]), e.f[4]
+            if open_task is None or open_task[0] != a or open_task[1] != kind:
+                bad("one-outstanding", "%s of association %d ended but it was not the outstanding request" % (kind, a), e)
+            open_task = None
+            if kind == "poll" and a in open_poll:
+                p = polls[open_poll.pop(a)]
+                p["last"] = e.t
+                p["clean"] = connected
+                p["quiet_since"] = e.t
+            continue
+    # requests that were overtaken never reach the head: they stay pending although later ones ran
+    for a in range(n):
+        for tok, kind, ts in pending[a]:
+            later = [t2 for (a2, tok2, k2, t2) in submitted if a2 == a and tok2 in started and t2 > ts]
+            if later and tok not in res_of:
+                fails.append(("user-fifo", "user request %d of association %d (submitted at %d) was overtaken by a later one" % (tok, a, ts)))
+    seen, out = set(), []
+    for c_, d in fails:
+        if c_ not in seen:
+            seen.add(c_); out.append((c_, d))
+    return out
 
 
 class C19(c17.C17):
@@ -9,9 +188,24 @@ class C19(c17.C17):
     proof_targets = ["Master/SchedProofs.vo"]
     property_file = "Properties/C19.v"
     flavour = "sched"
+    rule = ("msched scripts: 1..4 quiet or fully automatic associations on one channel, up to three polls per "
+            "association with periods 0..1000 ms, user requests (read, empty-response request, link status, time "
+            "synchronisation) at arbitrary virtual times including while another task is outstanding, responses "
+            "derived from the model state then perturbed or withheld until time-out, demands, keep-alive, "
+            "disable/enable/reconnect; a share of the scripts also counts the polls of the master task per virtual "
+            "millisecond; non-trivial = at least one task start besides the first")
+
+    def cases(self, rng, tier):
+        out = c17.C17.cases(self, rng, tier)
+        # a share of the scripts also reports how often the master task was polled per virtual ms
+        for k, c in enumerate(out):
+            if k % 4 == 0 and c.script.startswith("S "):
+                head, rest = c.script.split("\n", 1)
+                c.script = head + " wakes=1\n" + rest
+        return out
 
     def oracle(self, case, impl):
-        return machinery_failures(impl)
+        return c19_oracle(case, impl)
 
 
 PROP = C19()
